@@ -192,12 +192,23 @@ static double backwardError(const Dense &D, const std::vector<float> &sol, int n
   return std::sqrt(rn) / (std::sqrt(an) * std::max(std::sqrt(xn), span) + std::sqrt(bn) + 1e-300);
 }
 // Compare a library solution with the dense optimum. Well-conditioned: distance <= 2e-3 span.  Always: backward error <= 1e-4.
-static void compareWithDense(const Dense &D, const std::vector<double> &x, const std::vector<float> &sol, int nc, double span, CaseResult &r, const std::string &key, const std::string &ctx) {
+static void compareWithDense(const Dense &D, const std::vector<double> &x, const std::vector<float> &sol, int nc, double span, CaseResult &r, const std::string &key, const std::string &ctx, double condFactor) {
   double c = cond1(D);
   double err = 0;
   for (int i = 0; i < nc; ++i) err = std::max(err, std::fabs(x[i] - sol[i]));
   double be = backwardError(D, sol, nc, span);
   if (!(be <= 1e-4)) r.fail(key, ctx + " normwise backward error " + std::to_string(be) + " (max |x - x_ref| = " + std::to_string(err) + ", span " + std::to_string(span) + ", cond " + std::to_string(c) + ")");
+  {
+    // diagnostic histogram: forward error in units of cond x float epsilon x span
+    double q = err / (std::max(1.0, c) * 6e-8 * span);
+    r.count(q < 1 ? "fwd_err_lt_1_cond_eps" : q < 3 ? "fwd_err_lt_3_cond_eps" : q < 10 ? "fwd_err_lt_10_cond_eps" : q < 30 ? "fwd_err_lt_30_cond_eps" : q < 100 ? "fwd_err_lt_100_cond_eps" : "fwd_err_ge_100_cond_eps");
+  }
+  // condition-scaled forward bound: condFactor x cond1 x float epsilon x span. Measured on the unchanged tree over 1.8e5
+  // (star) / 1.5e5 (two-pin) instances: every star instance below 1 x, every two-pin instance below 10 x.
+  {
+    double bound = std::max(condFactor * std::max(1.0, c) * 6e-8, 1e-6) * span;
+    if (!(err <= bound)) r.fail(key, ctx + " max |x - x_ref| = " + std::to_string(err) + " exceeds " + std::to_string(condFactor) + " x cond1 x eps x span = " + std::to_string(bound) + " (span " + std::to_string(span) + ", cond1 " + std::to_string(c) + ")");
+  }
   if (c <= 2000) {
     r.count("well_conditioned");
     if (!(err <= 2e-3 * span)) r.fail(key, ctx + " max |x - x_ref| = " + std::to_string(err) + " span " + std::to_string(span) + " cond " + std::to_string(c));
@@ -254,7 +265,7 @@ static void lsqStarCase(Rng &rng, CaseResult &r) {
   }
   std::vector<double> x;
   if (!D.positiveDefinite() || !gauss(D.A, D.b, x)) { r.count("skipped_not_positive_definite"); r.sig = "skip"; return; }
-  compareWithDense(D, x, sol, m.nc, m.span, r, "C17:star-solution-is-not-the-weighted-least-squares-optimum", "solveStar:");
+  compareWithDense(D, x, sol, m.nc, m.span, r, "C17:star-solution-is-not-the-weighted-least-squares-optimum", "solveStar:", 4.0);
   r.count("compared");
   r.nontrivial = fractional;
   r.sig = "star n" + std::to_string(m.nc) + "k" + std::to_string(m.nets.size()) + (fractional ? "f" : "i");
@@ -297,7 +308,7 @@ static void lsqTwoPinCase(Rng &rng, CaseResult &r) {
   if (!D.positiveDefinite() || !gauss(D.A, D.b, x)) { r.count("skipped_not_positive_definite"); r.sig = "skip"; return; }
   double span = m.span;
   for (int i = 0; i < m.nc; ++i) span = std::max(span, (double)std::fabs(target[i]));
-  compareWithDense(D, x, sol, m.nc, span, r, "C17:two-pin-solution-is-not-the-weighted-least-squares-optimum", "net model " + std::to_string((int)P.netModel) + (withPenalty ? " with penalty:" : ":"));
+  compareWithDense(D, x, sol, m.nc, span, r, "C17:two-pin-solution-is-not-the-weighted-least-squares-optimum", "net model " + std::to_string((int)P.netModel) + (withPenalty ? " with penalty:" : ":"), 40.0);
   r.count("compared");
   r.nontrivial = fractional;
   r.sig = "two m" + std::to_string((int)P.netModel) + (withPenalty ? "p" : "-") + "n" + std::to_string(m.nc) + (fractional ? "f" : "i");
